@@ -328,6 +328,15 @@ def value_shapes(tier):
     add("C07 value OID joint", [], 'v', 'OBJECT IDENTIFIER', '{ joint-iso-itu-t 5 1 }', V('oid', arcs=[2, 5, 1]), 0)
     add("C07 value OID itu-t names", [], 'v', 'OBJECT IDENTIFIER', '{ itu-t recommendation 24 }', V('oid', arcs=[0, 0, 24]), 0)
     add("C07 value OID iso member-body", [], 'v', 'OBJECT IDENTIFIER', '{ iso member-body 840 }', V('oid', arcs=[1, 2, 840]), 0)
+    # root arc forms x well-known second-level names (X.660): the second arc resolves relative to the root's number
+    roots = [('itu-t', 0), ('iso', 1), ('joint-iso-itu-t', 2), ('itu-t(0)', 0), ('iso(1)', 1), ('ccitt(0)', 0), ('foo(0)', 0), ('bar(1)', 1), ('0', 0), ('1', 1), ('joint-iso-ccitt(2)', 2)]
+    second = {0: [('recommendation', 0), ('question', 1), ('administration', 2), ('network-operator', 3), ('identified-organization', 4), ('r-recommendation', 5)],
+              1: [('standard', 0), ('registration-authority', 1), ('member-body', 2), ('identified-organization', 3)], 2: []}
+    for rt, rn in (roots if tier != 'quick' else roots[::2] + [roots[5]]):
+        for sn, sv in second[rn] if tier != 'quick' else second[rn][-2:]:
+            add(f"C07 value OID root[{rt}] second[{sn}]", [], 'v', 'OBJECT IDENTIFIER', f"{{ {rt} {sn} 7 }}", V('oid', arcs=[rn, sv, 7]), 0)
+            add(f"C07 value OID root[{rt}] second[{sn}(n)]", [], 'v', 'OBJECT IDENTIFIER', f"{{ {rt} {sn}({sv}) 7 }}", V('oid', arcs=[rn, sv, 7]), 0)
+        add(f"C07 value OID root[{rt}] numbers", [], 'v', 'OBJECT IDENTIFIER', f"{{ {rt} 3 7 }}", V('oid', arcs=[rn, 3, 7]), 0)
     add("C07 value enumeral", ['Ee ::= ENUMERATED { one, two, three }'], 'v', 'Ee', 'two', V('enum', name='two'), 0)
     add("C07 value CHOICE int", ['Cc ::= CHOICE { p INTEGER, q BOOLEAN }'], 'v', 'Cc', f"p:{PH(0)}", V('choice', alt='p', inner=I(0)), 1)
     add("C07 value CHOICE bool", ['Cc ::= CHOICE { p INTEGER, q BOOLEAN }'], 'v', 'Cc', "q:TRUE", V('choice', alt='q', inner=V('bool', b=True)), 0)
